@@ -2,7 +2,7 @@
  'kind': 'proof', 'mode': 'legacy',
  'functions': ['bsearch'],
  'clauses': 'for every nmemb (0 included), the given element size and ANY comparator results: terminates, every compar call gets (key, pointer to an element inside the array) - so nothing outside the array is ever handed out for dereferencing -, result is NULL or a pointer to an element of the array; array and key not modified by bsearch itself',
- 'params': {'SIZE': [3]}, 'timeout': 200, 'defines': ['BS_MAXBYTES=((size_t)1<<40)'],
+ 'params': {'SIZE': [1, 2, 3, 4, 8, 12, 32]}, 'solver': 'kissat', 'timeout': 300,
  'params_thorough': {'SIZE': [1, 2, 3, 4, 5, 6, 7, 8, 9, 10, 11, 12, 13, 14, 15, 16, 17, 18, 19, 20, 21, 22, 23, 24, 25, 26, 27, 28, 29, 30, 31, 32]},
  'inject': [
    {'file': 'compat/libc/stdlib/bsearch.c', 'func': 'bsearch', 'ghost': 'g_bl = 0; g_bd = nmemb;', 'at': 'func-begin'},
@@ -10,6 +10,7 @@
     'assigns': 'left, right, mid, g_bl, g_bd, g_bm, g_sr_idx',
     'invariants': ['__CPROVER_same_object(left, base) && __CPROVER_same_object(right, base)',
                    'g_bd >= 1 && g_bl < nmemb && g_bd <= nmemb - g_bl',
+                   '__CPROVER_POINTER_OFFSET(left) >= 0 && __CPROVER_POINTER_OFFSET(left) < __CPROVER_POINTER_OFFSET(right) && (size_t)__CPROVER_POINTER_OFFSET(right) <= nmemb * size',
                    '(size_t)__CPROVER_POINTER_OFFSET(left) == g_bl * size',
                    '(size_t)(__CPROVER_POINTER_OFFSET(right) - __CPROVER_POINTER_OFFSET(left)) == g_bd * size'],
     'decreases': 'g_bd'},
@@ -29,9 +30,6 @@
 #include "vc.h"
 #include "c11_libc_env.h"
 #include "c11_search_stub.h"
-#ifndef BS_MAXBYTES
-#define BS_MAXBYTES VC_MAXOBJ
-#endif
 /* ghost: element index of left and mid, element count between left and right (byte offsets are these times size;
  * `right` itself is never needed as a product, which keeps the step obligation within reach of the SAT back end
  * for element sizes that are not powers of two) */
@@ -52,7 +50,7 @@ void harness(void)
 #ifdef WITNESS_MODE
     __CPROVER_assume(nmemb <= 6 / SIZE);
 #else
-    __CPROVER_assume(nmemb <= BS_MAXBYTES / SIZE);
+    __CPROVER_assume(nmemb <= VC_MAXOBJ / SIZE);
 #endif
     /* known findings: (1) the empty array, (2) see vc_cmp in c11_search_stub.h */
     __CPROVER_assume(KF_C11_bsearch_empty == 0 ? 1 : KF_C11_bsearch_empty == 1 ? nmemb != 0 : nmemb == 0);
